@@ -80,16 +80,20 @@ def run(ctx):
         for x in mm:
             ctx.violation("C01:numeric:%s:%s" % (j[0], x["what"]), "%s: %s" % (j, x), {"numeric": list(j)})
     consts = {
-        "MaxN": "4" if quick else "7",
+        "MaxN": "4" if quick else "6",
         "MinN": "1",
-        "KSet": "{1,2,3,4,5,1000}" if quick else "{1,2,3,4,5,6,7,8,1000}",
+        "KSet": "{1,2,3,4,5,1000}" if quick else "{1,2,3,4,5,6,7,1000}",
         "ASet": "{1000,0,1,2,999}" if quick else "{1000,0,1,2,3,999}",
         "OSet": "{<<1,-1>>, <<0,1,3>>, <<2,0,2>>}" if quick
-                else "{<<1,-1>>, <<0,2>>, <<0,1,3>>, <<2,0,2>>, <<1,1,1>>, <<0,1,2,4>>, <<3,0,0,1>>}",
+                else "{<<1,-1>>, <<0,2>>, <<0,1,3>>, <<2,0,2>>, <<1,1,1>>}",
         "ShiftSet": "{<<0,0>>}",
         "AlgSet": '{"row","col"}',
     }
     cases = eng.generate(ctx, consts, "commuting models, all memory settings")
+    if not quick:
+        # four-level systems: shorter runs (the full-memory network grows with d^2)
+        c4 = dict(consts, MaxN="4", KSet="{1,2,3,5,1000}", ASet="{1000,0,2,999}", OSet="{<<0,1,2,4>>, <<3,0,0,1>>}")
+        cases += eng.generate(ctx, c4, "commuting four-level models")
     jobs = []
     for idx, case in enumerate(cases):
         for v in variants(case, ctx.tier, idx):
